@@ -216,6 +216,7 @@ func StdCheck(e *Explorer, w *worker, prev, ns *State, j int, label string, merg
 	// ---- C01(b,c): the observable is a function of the merged set ----
 	if old, same := e.PathIndependence(MergedKey(ns, ns.M[j]), ob.Canon, path()); !same {
 		add("C01", "diverged", fmt.Sprintf("same merged set, different observable:\n  now  %s\n  via %v\n  then %s", ob.Canon, old.Path(), old.Canon()))
+		vs[len(vs)-1].OtherPath = old.Path()
 	}
 	// ---- C03 on branching histories: the document at every merged commit ----
 	if cfg.TimeTravel {
@@ -376,9 +377,26 @@ func closure(ns *State, j int) string {
 // Replay re-executes a path sequentially on fresh nodes (vkv or badger) and returns the violations
 // the oracles report along it, plus the final observables of all nodes.
 func Replay(cfg Config, path []string, badger bool) ([]Viol, []string, error) {
+	return ReplayAfter(cfg, nil, path, badger)
+}
+
+// ReplayAfter replays path after the path `first` (if any) has filled the path-independence table:
+// a "same merged set, different observable" violation is a relation between two paths and can only
+// be reproduced with both.
+func ReplayAfter(cfg Config, first, path []string, badger bool) ([]Viol, []string, error) {
+	table := map[string]tableEnt{}
+	if len(first) > 0 {
+		if _, _, err := replayWith(cfg, first, badger, table); err != nil {
+			return nil, nil, err
+		}
+	}
+	return replayWith(cfg, path, badger, table)
+}
+
+func replayWith(cfg Config, path []string, badger bool, table map[string]tableEnt) ([]Viol, []string, error) {
 	e := &Explorer{Cfg: cfg, Check: StdCheck}
 	e.seen = map[[32]byte]struct{}{}
-	e.table = map[string]tableEnt{}
+	e.table = table
 	e.Stats.Outcomes = map[string]struct{}{}
 	w, snaps, err := newWorker(&e.Cfg, badger)
 	if err != nil {
